@@ -81,6 +81,7 @@ class VExecutor(Executor):
         return None
 
     def _execute_command(self, subroutine_id, command):
+        self.current_cmd = command          # what was being executed if a fault is raised
         yield from super()._execute_command(subroutine_id, command)
         if self.step_mode:
             yield STEP
@@ -690,8 +691,10 @@ class AutoLink:
     responses whenever the executor waits.  bell / outcome / basis scripts are
     consumed in pair order."""
 
-    def __init__(self, ex: "VExecutor", stack: RecordingStack, bell=None, outcomes=None, remote_streams=None, fields=None):
+    def __init__(self, ex: "VExecutor", stack: RecordingStack, bell=None, outcomes=None, remote_streams=None, fields=None, stepwise=False, mark=False):
+        self.mark = mark                    # record every K delivery in the executor's gate log
         self.ex, self.stack = ex, stack
+        self.stepwise = stepwise            # at most one response per wait (the link delivers pair after pair)
         self.bell = list(bell or [])
         self.outcomes = list(outcomes or [])
         self.served = 0                     # requests of the stack already answered
@@ -718,6 +721,9 @@ class AutoLink:
                                  sequence_number=extra.get("sequence_number", i), purpose_id=purpose, remote_node_id=remote,
                                  goodness=extra.get("goodness", 0), bell_state=bell)
         self.log.append(r)
+        if kind == "K" and self.mark:
+            # the delivery is part of the quantum history: pair i now lives on physical qubit phys
+            self.ex.gate_log.append(("deliver", (i,), (int(bell.value),), (phys,)))
         return r
 
     def on_wait(self) -> bool:
@@ -726,14 +732,21 @@ class AutoLink:
             rq = self.stack.requests[self.served]
             self.served += 1
             kind = "K" if rq.type == RequestType.K else "M"
+            if self.stepwise:
+                self.remote.insert(0, dict(remote=rq.remote_node_id, purpose=rq.purpose_id, type=kind, n=rq.number, dir=0))
+                continue
             for _ in range(rq.number):
                 self.ex._handle_epr_response(self._resp(kind, 0, rq.remote_node_id, rq.purpose_id))
                 progressed = True
         for st in self.remote:
             while st["n"] > 0:
                 st["n"] -= 1
-                self.ex._handle_epr_response(self._resp(st["type"], 1, st["remote"], st["purpose"]))
+                self.ex._handle_epr_response(self._resp(st["type"], st.get("dir", 1), st["remote"], st["purpose"]))
                 progressed = True
+                if self.stepwise:
+                    break
+            if self.stepwise and progressed:
+                break
         if self.ex._pending_epr_responses:
             before = len(self.ex._pending_epr_responses)
             self.ex._handle_pending_epr_responses()
